@@ -212,7 +212,7 @@ def run(ctx):
         elif kind == "hcases":
             key = CONN_VERDICTS.get(v, "conn-verdict-%d" % v) + ":after-later-headers-were-read"
         elif kind == "ecases":
-            key = E2E_VERDICTS.get(v, "e2e-verdict-%d" % v)
+            key = E2E_VERDICTS.get(v, "e2e-verdict-%d" % v) + (":tls-listener" if case.get("note") == "tls" else "")
         else:
             key = "%s-verdict-%d" % (kind, v)
         groups[key].append((len(raw), case))
